@@ -633,7 +633,11 @@ fn explore_workload(ctx: &Ctx, wd: &WorkDir, wd_oneshot: &WorkDir, prop: &str, i
                         SLOW_RUNS.fetch_add(1, Ordering::SeqCst);
                     } else {
                         DISCREPANCIES.fetch_add(1, Ordering::SeqCst);
-                        eprintln!("note: server-mode verdict {} of workload {index} did not reproduce in fresh processes", v.class);
+                        eprintln!("note: server-mode verdict {} of workload {index} did not reproduce in fresh processes ({})", v.class, v.detail);
+                        for o in outs.iter().filter(|o| o.via_server && o.exit != Some(0)) {
+                            let head: Vec<&str> = o.stderr.lines().filter(|l| !l.trim_start().starts_with("at ")).take(8).collect();
+                            eprintln!("      server-mode run: exit={:?} stderr: {}", o.exit, head.join(" | "));
+                        }
                     }
                     Ok(ev)
                 }
@@ -939,7 +943,10 @@ pub fn run_check(prop: &str, tier: &str, workloads_override: Option<u64>, dump: 
         }
     }
 
-    let next = AtomicU64::new(0);
+    // SIM_FROM: start at this workload index (debugging aid: re-run one workload of a campaign)
+    let first: u64 = std::env::var("SIM_FROM").ok().and_then(|s| s.parse().ok()).unwrap_or(0);
+    let workloads = workloads + first;
+    let next = AtomicU64::new(first);
     let results: Mutex<Vec<Agg>> = Mutex::new(Vec::new());
     std::thread::scope(|s| {
         for t in 0..threads {
